@@ -376,6 +376,18 @@ def check_bank(ctx, F, S, np, cfg, bad, deep=True):
             return None
     rate, n = cfg["rate"], cfg["n"]
     cen, sup = [float(x) for x in bank.centers_hz], [(float(a), float(c)) for a, c in bank.supports_hz]
+    # what a property getter hands out belongs to the caller (e.g. centres converted to kHz in place): scribbling on it
+    # must not change the bank
+    for getter in ("centers_hz", "supports_hz", "supports"):
+        try:
+            handed = np.asarray(getattr(bank, getter))
+            if handed.dtype.kind in "fiu" and handed.size and handed.flags.writeable:
+                handed *= 0
+                handed += 7
+        except (TypeError, ValueError, AttributeError):
+            pass
+    cen2, sup2 = [float(x) for x in bank.centers_hz], [(float(a), float(c)) for a, c in bank.supports_hz]
+    chk("getters_hand_out_copies", cen2 == cen and sup2 == sup, centres_first_read=cen[:4], centres_after_caller_wrote=cen2[:4])
     chk("num_filts", bank.num_filts == n == len(cen) == len(sup), got=bank.num_filts)
     lay = expected_layout(S, cfg)
     tol = lambda x: 1e-9 * max(1.0, abs(x))  # noqa: E731
